@@ -150,7 +150,28 @@ Definition opmiss (l : nat) (c : token) : bool := all_miss (pt_ops spec_prec (ki
 Definition noop_above (k : nat) (c : token) : bool := forallb (fun l => opmiss l c) (seq (S k) (9 - k)).
 Definition nosfx (c : token) : bool :=
   negb (is_simple SDot c) && negb (is_simple SLeftBracket c) && negb (is_simple SLeftParen c) &&
-  negb (is_simple SLeftBrace c).
+  negb (is_simple SLeftBrace c) && negb (is_simple KTailstrict c).
+
+(* tokens an expression can start with *)
+Definition starter_k (k : stoken) : bool :=
+  match k with
+  | KNull | KTrue | KFalse | KSelf | SDollar | SLeftParen | SLeftBracket | SLeftBrace
+  | SPlus | SMinus | STilde | SExclam | KIf | KLocal | KFunction | KAssert | KImport | KImportstr
+  | KImportbin | KError | KSuper => true
+  | _ => false
+  end.
+Definition starter (c : token) : bool :=
+  match tok_kind c with
+  | TSimple k => starter_k k
+  | TIdent _ | TNumber _ | TString _ | TTextBlock _ => true
+  | _ => false
+  end.
+Lemma starter_not k c : starter c = true -> starter_k k = false -> is_simple k c = false.
+Proof.
+  unfold starter, is_simple. destruct (tok_kind c); intros H Hk; try reflexivity.
+  destruct (stoken_eqb k0 k) eqn:E; [|reflexivity].
+  apply stoken_eqb_eq in E. subst. congruence.
+Qed.
 
 Lemma noop_above_at k l c : noop_above k c = true -> (k < l <= 9)%nat -> opmiss l c = true.
 Proof.
